@@ -297,6 +297,12 @@ Proof.
   rewrite skipn_app, Nat.sub_diag, skipn_all. reflexivity.
 Qed.
 
+Lemma nth_error_firstn_lt {A : Type} : forall n (l : list A) i, (i < n)%nat -> nth_error (firstn n l) i = nth_error l i.
+Proof.
+  induction n as [|n IH]; intros l i H; [lia|]. destruct l as [|a l]; [destruct i; reflexivity|].
+  destruct i as [|i]; [reflexivity|]. simpl. apply IH. lia.
+Qed.
+
 Lemma drop_last_app2 {A : Type} (u : list A) a b : drop_last 2 (u ++ [a; b]) = u.
 Proof. exact (drop_last_app u [a; b]). Qed.
 
